@@ -522,6 +522,53 @@ def check_unfoldsib(facts):
         return t
     ta, tb = rw(norm(facts.hir[fa]["body"])), rw(norm(facts.hir[fb]["body"]))
     key = "unfold_char ~ unfold_uppercase_char"
+
+    def bag(h):
+        """form-insensitive summary for the case that one sibling is written as a loop and the other as an iterator chain: the
+        multiset of comparison / arithmetic operators, literals, fields and callees — without iteration plumbing, negations,
+        locals and structure — after the same table / canonicaliser renaming"""
+        PLUMB = {"iter", "into_iter", "filter", "extend", "push", "map", "collect", "next", "copied", "cloned", "for_each", "filter_map",
+                 "flat_map", "chain", "by_ref", "from", "into", "new", "with_capacity", "to_vec", "is_empty", "len"}
+        out_ = []
+
+        def go(n):
+            if isinstance(n, list):
+                for x in n:
+                    go(x)
+                return
+            if not isinstance(n, dict):
+                return
+            k_ = n.get("k")
+            if k_ == "bin":
+                out_.append({">": "<", ">=": "<="}.get(n.get("op"), n.get("op")))
+            elif k_ == "lit":
+                out_.append("lit:%r" % (n.get("v"),))
+            elif k_ == "mcall":
+                nm = (n.get("def") or n.get("name") or "").split("::")[-1]
+                if nm not in PLUMB:
+                    out_.append("call:" + nm)
+            elif k_ == "call":
+                nm = ((n.get("callee") or {}).get("path") or "").split("::")[-1]
+                if nm in ("fold", "uppercase"):
+                    nm = "CANON"
+                if nm and nm not in PLUMB and nm != "legacy_canonical":
+                    out_.append("call:" + nm)
+            elif k_ == "field":
+                out_.append("field:" + str(n.get("name")))
+            elif k_ == "path":
+                r0 = n.get("res") or {}
+                if r0.get("r") == "def" and str(r0.get("path", "")).split("::")[-1] in ("FOLDS", "TO_UPPERCASE"):
+                    out_.append("TABLE")
+            for kk, v in n.items():
+                if kk not in ("pat", "res", "ty", "recv_ty", "scrut_ty"):
+                    go(v)
+        go(h)
+        return sorted(out_)
+    if ta != tb:
+        ba, bb_ = bag(facts.hir[fa]["body"]), bag(facts.hir[fb]["body"])
+        if ba == bb_ and ba.count("TABLE") == 1:
+            r.ok(key, "same operators, tests and callees over the mode's table (one sibling in loop form, the other as an iterator chain)")
+            return r
     if ta == tb and json.dumps(ta).count('"TABLE"') == 1:
         r.ok(key, "same scan over the mode's table")
         r.sample({"siblings": [fa, fb], "normal_form": json.dumps(ta)[:300]})
